@@ -112,9 +112,10 @@ const (
 	Metrics
 	Open
 	IterNext
+	Open2
 )
 
-var opNames = [...]string{"Put", "Delete", "Compact", "Sync", "Reopen", "Backup", "Close", "Get", "Has", "Count", "Scan", "GetAppend", "FileSize", "Metrics", "Open", "IterNext"}
+var opNames = [...]string{"Put", "Delete", "Compact", "Sync", "Reopen", "Backup", "Close", "Get", "Has", "Count", "Scan", "GetAppend", "FileSize", "Metrics", "Open", "IterNext", "Open2"}
 
 func (k OpKind) String() string { return opNames[k] }
 
